@@ -12,6 +12,9 @@ whose matrix is the Jacobian of the grammar equations at t; it is solved exactly
 ((I - J)^-1, exact over Fractions when t is exact).  This is the "derivative trick": d/dz of the tree sum of
 the grammar whose terminals weigh z, at z = 1.
 
+amplification(g) = max row sum of (I - J)^-1 at the least solution: the factor by which a perturbation of one
+equation (an update dropped by a stopping tolerance) can move a total weight (used to scale tolerances).
+
 selfcheck(): against brute-force truncated sums  sum_{|x| <= L} |x| * cfg_weight(g, x)  (equality on finite
 languages, monotone lower bound converging geometrically otherwise) and against a numeric derivative.
 """
